@@ -290,6 +290,9 @@ func lsRun(plan simos.Plan, args []string) (out string, err error, completed boo
 	return ob.String(), err, completed, st.Log, st.Fired
 }
 
+// temp file names carry a random number
+var lsTmpRe = regexp.MustCompile(`\.\d+\.tmp`)
+
 var (
 	reWouldRemove = regexp.MustCompile(`(?m)^Would remove (\S+) `)
 	reRemoving    = regexp.MustCompile(`(?m)^Removing (\S+) `)
@@ -616,7 +619,7 @@ func runLocalSync(t *testing.T, tp *simrt.Tape, prop string) hx.Result {
 			h += " (" + fault + ")"
 			for _, o := range fops {
 				if (plan.CrashAt == o.K || plan.FailAt == o.K) && o.K > 0 {
-					h += fmt.Sprintf(" [%s %s]", o.Name, filepath.Base(o.Path))
+					h += fmt.Sprintf(" [%s %s]", o.Name, lsTmpRe.ReplaceAllString(filepath.Base(o.Path), ".*.tmp"))
 				}
 			}
 		}
